@@ -5,7 +5,7 @@ from __future__ import annotations
 import ast
 
 from .. import symex
-from ..symex import Sym, Falsy, T, SList, Engine, show, walk_terms, early_exits
+from ..symex import Sym, Falsy, T, SList, Engine, show, walk_terms, early_exits, contains
 from ..loader import AnalysisError, FuncInfo, loc
 from ..report import RuleResult
 
@@ -426,4 +426,45 @@ def rule_nullkey(P) -> RuleResult:
                 res.fail(uq.fq, 'uniquify:new', 'a row not seen before must be yielded once and recorded as seen', loc(uq))
             else:
                 res.ok({'uniquify': 'seen' if seen else 'new', 'yields': len(ys), 'records': len(adds)})
+    return res
+
+
+# ----------------------------------------------------------------------
+# R-ENTRYFILTER (C14): the functions a PRINT filter evaluates are defined on directives of every type
+
+def rule_entryfilter(P) -> RuleResult:
+    """PRINT evaluates its FROM expression on every directive, whatever its type.  has_account(), the one function that looks at the
+    directive itself, takes the accounts of the directive from getters.get_entry_accounts (defined for every directive type) and
+    answers TRUE or FALSE for each: it neither assumes a transaction nor gives NULL for the other types."""
+    res = RuleResult('R-ENTRYFILTER')
+    res.exhaustive = True
+    qe = P.module('beanquery.query_env')
+    fs = qe.toplevel_funcs.get('has_account')
+    if not fs:
+        raise AnalysisError('anchor vanished: query_env.has_account')
+    f = fs[-1]
+    ROW, PAT = Sym('ROW'), Sym('PATTERN')
+    ENTRY = T('attr', (ROW, 'entry'))
+    accounts = T('call', ('getters.get_entry_accounts', (ENTRY,), ()))
+    n = 0
+    for p in Engine(P).paths(f, {f.params[0]: ROW, f.params[1]: PAT}):
+        n += 1
+        typed = [t for t, _ in p.decisions if isinstance(t, T) and t.op == 'call' and t.args[0] == 'isinstance' and contains(t.args[1][0], ROW)]
+        typed += [t for t, _ in p.decisions if isinstance(t, T) and t.op in ('attr', 'cmp') and any(
+            isinstance(x, T) and x.op == 'attr' and x.args[0] == ENTRY for x in walk_terms(t)) and not any(
+            isinstance(x, T) and x.op == 'elem' for x in walk_terms(t))]
+        loops = [e[1] for e in p.events if e[0] == 'loop-begin']
+        if typed:
+            res.fail(f.fq, 'entryfilter:typed', f'has_account() branches on the kind of directive (`{show(typed[0])[:70]}`): a PRINT filter is '
+                     f'evaluated on open, close, balance, pad, note and document directives too, which name accounts', loc(f))
+        elif p.outcome != 'return' or not (p.value is True or p.value is False):
+            res.fail(f.fq, 'entryfilter:null', f'has_account() must answer TRUE or FALSE for every directive; a path gives '
+                     f'`{show(p.value)[:50] if p.outcome == "return" else p.outcome}`', loc(f))
+        elif accounts not in loops:
+            res.fail(f.fq, 'entryfilter:accounts', f'has_account() must search the accounts of the directive '
+                     f'(getters.get_entry_accounts(context.entry)); it searches `{show(loops[0])[:70] if loops else "nothing"}`', loc(f))
+    if n == 0:
+        raise AnalysisError(f'{f.fq}: no path interpreted')
+    if not res.findings:
+        res.ok({'function': f.fq, 'paths': n, 'accounts_of': 'getters.get_entry_accounts(context.entry)', 'answers': ['TRUE', 'FALSE']})
     return res
